@@ -377,6 +377,12 @@ def _eval_inner(case, c):
             p32 = I.CLS[kind](a32)
             big = I.CLS[kind]([2.0**24 + 1.0] + [0.5] * (len(a) - 1))
             c.phys("pose built from a float32 array, composed with a large double pose", kind, (p32 + big) - p32, I.comps(big), 1.0 + 2.0**24 * 1e-9)
+            # ... also when BOTH operands come from reduced-precision arrays whose sum that precision cannot hold
+            for dt, top in ((np.float32, 2.0**24), (np.float16, 2.0**11)):
+                q = I.CLS[kind](np.array([top] + [0.25] * (len(a) - 1), dtype=dt))
+                one = I.CLS[kind](np.array([1.0] + [0.5] * (len(a) - 1), dtype=dt))
+                c.phys("(a (+) b) (-) b for two poses built from %s arrays" % dt.__name__, kind, (one + q) - q, [1.0] + [0.5] * (len(a) - 1), 1.0 + top * 1e-9)
+                c.phys("a (+) b for two poses built from %s arrays" % dt.__name__, kind, one + q, [top + 1.0] + [0.75] * (len(a) - 1), 1.0 + top * 1e-9)
         cp = pa.copy()
         c.phys("copy", kind, cp, a, sc)
         c.nops += 1
